@@ -98,6 +98,110 @@ Proof.
   rewrite app_length, (bits_of_length K), IH by lia. reflexivity.
 Qed.
 
+(** ** the code-shaped prover computes the textbook proof *)
+Definition textbook_proof bits cap (values : list N) (promises : list (option N)) (blindings : list (list K))
+           (nn : nonces K) (ch : pchals K) : pproof K M :=
+  let m := length values in
+  let N := (m * bits)%nat in
+  let y := pc_y ch in let z := pc_z ch in let es := pc_es ch in let e := pc_e ch in
+  let G := firstn N (g_G g) in let Hs := firstn N (g_Hv g) in
+  let aL := a_L K bits values promises in
+  let aR := map (fun x => x - 1) aL in
+  let a1 := aL_hat K z aL in let b1 := aR_hat K bits m y z aR in
+  let al1 := alpha_hat K (v_weights K bits m y z) blindings (n_alpha nn) in
+  let rs := rounds_of K es (n_dL nn) (n_dR nn) in
+  let '(af, bf, alf) := final_state K y rs a1 b1 al1 in
+  let msgs := prover_msgs K M H Gb y rs a1 b1 al1 G Hs in
+  let G0 := hd (v0 M) (fold_Gs K M y es G) in let H0 := hd (v0 M) (fold_Hs K M es Hs) in
+  mkPproof K M (commit_A K M g aL aR (n_alpha nn) (2 * bits * cap - 2 * bits * m))
+           (map fst msgs) (map snd msgs)
+           (final_A1 K M H Gb y (hd 0 af) (hd 0 bf) (n_r nn) (n_s nn) (n_d nn) G0 H0)
+           (final_B K M H Gb y (n_r nn) (n_s nn) (n_eta nn))
+           (n_r nn + hd 0 af * e) (n_s nn + hd 0 bf * e) (final_d1 K e alf (n_d nn) (n_eta nn)).
+
+Section WithInputs.
+Variables (bits cap : nat) (values : list N) (promises : list (option N)) (blindings : list (list K)) (nn : nonces K) (ch : pchals K) (a : nat).
+Let m := length values.
+Let N := (m * bits)%nat.
+Let T := length Gb.
+Hypothesis Hb : 1 <= bits.
+Hypothesis Hm : m = 2 ^ a.
+Hypothesis Hcap : m <= cap.
+Hypothesis LG : length (g_G g) = (bits * cap)%nat.
+Hypothesis LH : length (g_Hv g) = (bits * cap)%nat.
+Hypothesis HN : N = 2 ^ length (pc_es ch).
+Hypothesis Hy : pc_y ch <> 0.
+Hypothesis Hes : Forall (fun e => e <> 0) (pc_es ch).
+Hypothesis Lp : length promises = m.
+Hypothesis Lb : length blindings = m.
+Hypothesis Fb : Forall (fun r => length r = T) blindings.
+Hypothesis Wn : wf_nonces T (length (pc_es ch)) nn.
+
+Let G := firstn N (g_G g).
+Let Hs := firstn N (g_Hv g).
+Let aL := a_L K bits values promises.
+Let aR := map (fun x => x - 1) aL.
+Let a1 := aL_hat K (pc_z ch) aL.
+Let b1 := aR_hat K bits m (pc_y ch) (pc_z ch) aR.
+Let al1 := alpha_hat K (v_weights K bits m (pc_y ch) (pc_z ch)) blindings (n_alpha nn).
+
+Lemma HNcap : N <= bits * cap.
+Proof. unfold N. rewrite (Nat.mul_comm m bits). apply Nat.mul_le_mono_l. exact Hcap. Qed.
+Lemma LGn : length G = N. Proof. unfold G. rewrite firstn_length. apply Nat.min_l. rewrite LG. exact HNcap. Qed.
+Lemma LHn : length Hs = N. Proof. unfold Hs. rewrite firstn_length. apply Nat.min_l. rewrite LH. exact HNcap. Qed.
+Lemma LaL : length aL = N. Proof. apply a_L_length. exact Lp. Qed.
+Lemma La1 : length a1 = N. Proof. unfold a1, aL_hat. rewrite map_length. exact LaL. Qed.
+Lemma Lhs : length (h_shift K bits m (pc_y ch) (pc_z ch)) = N.
+Proof. unfold h_shift. apply map2_len; [apply d_naive_length|apply seq_length]. Qed.
+Lemma Lb1 : length b1 = N.
+Proof. unfold b1, aR_hat. apply map2_len; [unfold aR; rewrite map_length; exact LaL|exact Lhs]. Qed.
+Lemma Lal1 : length al1 = T.
+Proof.
+  destruct Wn as (Lal & _). unfold al1.
+  destruct (alpha_hat_msm K Kok M Mok g (v_weights K bits m (pc_y ch) (pc_z ch)) blindings (n_alpha nn)) as [_ E]; [rewrite Lal; exact Fb|]. now rewrite E.
+Qed.
+
+Theorem prove_core_textbook :
+  prove_core K M bits cap g values promises blindings nn ch = textbook_proof bits cap values promises blindings nn ch.
+Proof.
+  destruct Wn as (Lal & Ld & Leta & LdL & LdR & FdL & FdR).
+  pose proof LGn as LGn. pose proof LHn as LHn. pose proof LaL as LaL. pose proof La1 as La1. pose proof Lb1 as Lb1. pose proof Lal1 as Lal1.
+  unfold textbook_proof. fold m. fold N. fold G. fold Hs. fold aL. fold aR. fold a1. fold b1. fold al1.
+  destruct ch as [y z es e]. cbn [pc_y pc_z pc_es pc_e] in *.
+  assert (Ea : map (fun x => x - z) aL = a1) by reflexivity.
+  assert (Eb : (fix go (ar dd yp : list K) : list K :=
+                  match ar, dd, yp with
+                  | a0 :: ar', di :: dd', p0 :: yp' => (a0 + (di * p0 + z)) :: go ar' dd' yp'
+                  | _, _, _ => ar
+                  end) aR (d_vec K bits m (z * z)) (skipn 1 (rev (powers K y (N + 2)))) = b1).
+  { assert (Hm1 : 1 <= m) by (rewrite Hm; apply pow2_ge1).
+    rewrite (d_vec_naive K Kok bits m z Hb Hm1), (rev_powers_skip y N Hy).
+    rewrite (aR_go_spec z aR (d_naive K bits m z) _ (seq 0 (N + 1)) (fun i => fpow y (N - i)) eq_refl)
+      by (unfold aR; rewrite ?map_length, ?d_naive_length, ?seq_length; lia).
+    unfold b1, aR_hat, h_shift. fold N. unfold aR at 2. rewrite map_length, LaL.
+    replace (firstn N (seq 0 (N + 1))) with (seq 0 N); [reflexivity|].
+    rewrite seq_app, firstn_app, seq_length, Nat.sub_diag. cbn [firstn].
+    rewrite app_nil_r. rewrite <- (seq_length N 0) at 2. now rewrite firstn_all. }
+  assert (Eal : alpha_offset K (z * z) (nth (N + 1) (powers K y (N + 2)) 0) 1 blindings (n_alpha nn) = al1).
+  { rewrite (powers_nth K Kok) by lia. rewrite alpha_offset_spec by (rewrite Lal; exact Fb).
+    unfold al1, v_weights. rewrite Lb. fold N. f_equal. apply map_ext. intros j.
+    replace (N + 1)%nat with (S N) by lia. ring. }
+  unfold prove_core. cbn [pc_y pc_z pc_es pc_e]. fold m. rewrite (Nat.mul_comm bits m). fold N. fold aL. fold aR.
+  rewrite Ea, Eb, Eal. fold G. fold Hs.
+  set (st0 := mkPstate K M a1 b1 G Hs al1).
+  pose proof (rounds_loop_spec K Kok M Mok g y N es (n_dL nn) (n_dR nn) st0 LdL LdR FdL FdR) as RL.
+  cbn [ps_a ps_b ps_G ps_Hv ps_alpha st0] in RL.
+  specialize (RL ltac:(congruence) ltac:(congruence) ltac:(congruence) ltac:(congruence) ltac:(lia) Lal1 Hes).
+  cbn zeta in RL.
+  destruct (final_state K y (rounds_of K es (n_dL nn) (n_dR nn)) a1 b1 al1) as [[af bf] alf] eqn:Efs.
+  destruct RL as (ERL & _).
+  rewrite ERL. cbn [ps_a ps_b ps_G ps_Hv ps_alpha].
+  rewrite !nth0_hd.
+  rewrite (powers_nth K Kok) by lia. replace (fpow y 1) with y by (cbn; ring).
+  rewrite d1_go_spec. reflexivity.
+Qed.
+End WithInputs.
+
 (** ** completeness *)
 Theorem completeness bits cap (values : list N) (promises : list (option N)) (blindings : list (list K))
         (nn : nonces K) (ch : pchals K) (w : K) a :
@@ -118,90 +222,49 @@ Theorem completeness bits cap (values : list N) (promises : list (option N)) (bl
             (firstn N (g_G g)) (firstn N (g_Hv g)) commitments H Gb (pp_A1 p) (pp_B p) (pp_A p) (pp_L p) (pp_R p)
   = v0 M.
 Proof.
-  intros m N T Hb Hm Hcap LG LH HN Hy Hy1 He Hes Lp Lb Fb (Lal & Ld & Leta & LdL & LdR & FdL & FdR) Hle Hlt p commitments.
+  intros m N T Hb Hm Hcap LG LH HN Hy Hy1 He Hes Lp Lb Fb Wn Hle Hlt p commitments.
+  subst p. rewrite (prove_core_textbook bits cap values promises blindings nn ch a Hb Hm Hcap LG LH HN Hy Hes Lp Lb Fb Wn).
+  pose proof (LGn bits cap values Hcap LG) as LGn. pose proof (LHn bits cap values Hcap LH) as LHn.
+  pose proof (HNcap bits cap values Hcap) as HNcap. fold m in HNcap. fold N in HNcap.
+  pose proof (LaL bits values promises Lp) as LaL. pose proof (La1 bits values promises ch Lp) as La1.
+  pose proof (Lb1 bits values promises ch Lp) as Lb1. pose proof (Lal1 bits values blindings nn ch Fb Wn) as Lal1.
+  destruct Wn as (Lal & Ld & Leta & LdL & LdR & FdL & FdR).
+  fold m in LGn, LHn, LaL, La1, Lb1, Lal1. fold N in LGn, LHn, LaL, La1, Lb1.
+  unfold textbook_proof. fold m. fold N.
   destruct ch as [y z es e]. cbn [pc_y pc_z pc_es pc_e] in *.
-  assert (HNcap : N <= bits * cap) by (unfold N; rewrite (Nat.mul_comm m bits); apply Nat.mul_le_mono_l; exact Hcap).
-  set (G := firstn N (g_G g)). set (Hs := firstn N (g_Hv g)).
-  assert (LGn : length G = N) by (unfold G; rewrite firstn_length; apply Nat.min_l; rewrite LG; exact HNcap).
-  assert (LHn : length Hs = N) by (unfold Hs; rewrite firstn_length; apply Nat.min_l; rewrite LH; exact HNcap).
-  set (aL := a_L K bits values promises). set (aR := map (fun x => x - 1) aL).
-  (* textbook initial vectors *)
+  set (G := firstn N (g_G g)) in *. set (Hs := firstn N (g_Hv g)) in *.
+  set (aL := a_L K bits values promises) in *. set (aR := map (fun x => x - 1) aL) in *.
   pose proof (range_reduction K Kok M Mok g bits values promises blindings (n_alpha nn) G Hs y z
                 Lp Lb LGn LHn ltac:(rewrite Lal; exact Fb) Hle Hlt) as RR.
   cbn zeta in RR. fold m in RR. fold aL in RR. fold aR in RR.
   set (a1 := aL_hat K z aL) in *. set (b1 := aR_hat K bits m y z aR) in *.
   set (al1 := alpha_hat K (v_weights K bits m y z) blindings (n_alpha nn)) in *.
-  assert (LaL : length aL = N).
-  { apply a_L_length. exact Lp. }
-  assert (La1 : length a1 = N) by (unfold a1, aL_hat; now rewrite map_length).
-  assert (Lhs : length (h_shift K bits m y z) = N) by (unfold h_shift; apply map2_len; [apply d_naive_length|apply seq_length]).
-  assert (Lb1 : length b1 = N) by (unfold b1, aR_hat; apply map2_len; [unfold aR; now rewrite map_length|exact Lhs]).
-  assert (Lal1 : length al1 = T).
-  { unfold al1. destruct (alpha_hat_msm K Kok M Mok g (v_weights K bits m y z) blindings (n_alpha nn)) as [_ E]; [rewrite Lal; exact Fb|]. now rewrite E. }
-  (* the code's initial state *)
-  assert (Ea : map (fun x => x - z) aL = a1) by reflexivity.
-  assert (Eb : (fix go (ar dd yp : list K) : list K :=
-                  match ar, dd, yp with
-                  | a0 :: ar', di :: dd', p0 :: yp' => (a0 + (di * p0 + z)) :: go ar' dd' yp'
-                  | _, _, _ => ar
-                  end) aR (d_vec K bits m (z * z)) (skipn 1 (rev (powers K y (N + 2)))) = b1).
-  { assert (Hm1 : 1 <= m) by (rewrite Hm; apply pow2_ge1).
-    rewrite (d_vec_naive K Kok bits m z Hb Hm1), (rev_powers_skip y N Hy).
-    rewrite (aR_go_spec z aR (d_naive K bits m z) _ (seq 0 (N + 1)) (fun i => fpow y (N - i)) eq_refl)
-      by (unfold aR; rewrite ?map_length, ?d_naive_length, ?seq_length; lia).
-    unfold b1, aR_hat, h_shift. fold N. unfold aR at 2. rewrite map_length, LaL.
-    replace (firstn N (seq 0 (N + 1))) with (seq 0 N); [reflexivity|].
-    replace (N + 1)%nat with (N + 1)%nat by reflexivity. rewrite seq_app, firstn_app, seq_length, Nat.sub_diag. cbn [firstn].
-    rewrite app_nil_r. rewrite <- (seq_length N 0) at 2. now rewrite firstn_all. }
-  assert (Eal : alpha_offset K (z * z) (nth (N + 1) (powers K y (N + 2)) 0) 1 blindings (n_alpha nn) = al1).
-  { rewrite (powers_nth K Kok) by lia. rewrite alpha_offset_spec by (rewrite Lal; exact Fb).
-    unfold al1, v_weights. rewrite Lb. fold N. f_equal. apply map_ext. intros j.
-    replace (N + 1)%nat with (S N) by lia. ring. }
-  (* unfold the code-shaped prover *)
-  subst p. unfold prove_core. cbn [pc_y pc_z pc_es pc_e]. fold m. rewrite (Nat.mul_comm bits m). fold N. fold aL. fold aR.
-  rewrite Ea, Eb, Eal. fold G. fold Hs.
-  set (st0 := mkPstate K M a1 b1 G Hs al1).
-  pose proof (rounds_loop_spec K Kok M Mok g y N es (n_dL nn) (n_dR nn) st0 LdL LdR FdL FdR) as RL.
-  cbn [ps_a ps_b ps_G ps_Hv ps_alpha st0] in RL.
+  pose proof (rounds_loop_spec K Kok M Mok g y N es (n_dL nn) (n_dR nn) (mkPstate K M a1 b1 G Hs al1) LdL LdR FdL FdR) as RL.
+  cbn [ps_a ps_b ps_G ps_Hv ps_alpha] in RL.
   specialize (RL ltac:(congruence) ltac:(congruence) ltac:(congruence) ltac:(congruence) ltac:(lia) Lal1 Hes).
   cbn zeta in RL.
   set (rs := rounds_of K es (n_dL nn) (n_dR nn)) in *.
-  (* textbook completeness on the same data *)
   pose proof (wip_complete K Kok M Mok H Gb y Hy rs a1 b1 al1 G Hs e (n_r nn) (n_s nn) (n_d nn) (n_eta nn)) as WC.
   cbn zeta in WC.
   destruct (final_state K y rs a1 b1 al1) as [[af bf] alf] eqn:Efs.
-  destruct RL as (ERL & Ers & Lrs & Wrs).
-  rewrite ERL. cbn [ps_a ps_b ps_G ps_Hv ps_alpha].
+  destruct RL as (_ & Ers & Lrs & Wrs).
+  cbn [pp_A pp_L pp_R pp_A1 pp_B pp_r1 pp_s1 pp_d1].
   set (msgs := prover_msgs K M H Gb y rs a1 b1 al1 G Hs) in *.
   assert (Lmsgs : length msgs = length es).
   { unfold msgs. rewrite <- Lrs. clear. generalize a1 b1 al1 G Hs. induction rs as [|r rs IH]; intros; cbn [prover_msgs length]; [reflexivity|]. now rewrite IH. }
   rewrite Lrs in WC. rewrite Lal1 in WC.
-  specialize (WC ltac:(congruence) ltac:(congruence) ltac:(congruence) ltac:(congruence) Wrs ltac:(congruence) ltac:(congruence)).
+  specialize (WC ltac:(congruence) ltac:(congruence) ltac:(congruence) ltac:(congruence) Wrs ltac:(exact Ld) ltac:(exact Leta)).
   rewrite Ers in WC. fold msgs in WC.
   rewrite (verifier_fold_split K M y es msgs _ G Hs Lmsgs) in WC.
-  rewrite !nth0_hd.
-  rewrite (powers_nth K Kok) by lia. replace (fpow y 1) with y by (cbn; ring).
-  rewrite d1_go_spec.
-  (* through the verifier equivalence *)
   assert (Lcm : length commitments = m) by (unfold commitments; rewrite map_length, combine_length; lia).
-  pose proof (verifier_equiv K Kok M Mok bits a promises H Gb G Hs commitments
-                (commit_A K M g aL aR (n_alpha nn) (2 * bits * cap - 2 * bits * m))
-                (final_A1 K M H Gb y (hd 0 af) (hd 0 bf) (n_r nn) (n_s nn) (n_d nn) (hd (v0 M) (fold_Gs K M y es G)) (hd (v0 M) (fold_Hs K M es Hs)))
-                (final_B K M H Gb y (n_r nn) (n_s nn) (n_eta nn)) msgs
-                (n_r nn + hd 0 af * e) (n_s nn + hd 0 bf * e) (final_d1 K e alf (n_d nn) (n_eta nn)) y z e w es) as VE.
-  rewrite Lp in VE. fold N in VE.
-  specialize (VE Hb Hm HN Hes Hy Hy1 LGn LHn Lcm Lmsgs).
-  unfold final_A1, final_B in VE |- *.
-  etransitivity; [|etransitivity; [exact VE|]].
-  { f_equal; try reflexivity. }
+  rewrite (verifier_equiv K Kok M Mok bits a promises H Gb G Hs commitments _ _ _ msgs _ _ _ y z e w es)
+    by (rewrite ?Lp; assumption).
   unfold spec_residual, spec_sides. cbn [rp_A rp_LR rp_A1 rp_B rp_r1 rp_s1 rp_d1].
   rewrite (verifier_fold_split K M y es msgs _ G Hs Lmsgs).
-  (* A through the padded table is the textbook A *)
   rewrite (commit_A_capacity_independent K Kok M Mok g aL aR (n_alpha nn)) by (unfold aR; rewrite ?map_length; lia).
   rewrite (msm_firstn K M aL (g_G g)), (msm_firstn K M aR (g_Hv g)). unfold aR at 2. rewrite map_length, LaL. fold G. fold Hs. fold aR.
   unfold commitments. rewrite RR.
-  unfold final_check, final_A1, final_B in WC. rewrite <- WC.
-  rewrite (smul_v0 K Kok M Mok) || idtac.
+  unfold final_check in WC. rewrite <- WC.
   transitivity (w *v v0 M); [f_equal; module_eq|apply (smul_v0 K Kok M Mok)].
 Qed.
 End C.
